@@ -12,7 +12,7 @@ def check(ctx, rep):
         "gathered from *all* done tasks. R03.3 every main wait is re-armed with deadline - now. R03.4 cycles "
         "raise instead of looping (topological scan makes progress or raises). R03.6 (= R07.3) every activation "
         "starts its jobs through a window it built itself: a nested scheduler that queues its jobs on the window "
-        "in which it holds a slot itself wedges a window of 1. R03.7 the default of `shutdown_timeout` is a positive bound in every scheduler constructor.")
+        "in which it holds a slot itself wedges a window of 1. R03.7 the default of `shutdown_timeout` is a positive bound in every scheduler constructor. R03.8 in the window wrapper the handler of a failing job asks the job now: it uses no value sampled from the job when the task was created. R03.9 (= R07.5) `jobs_window` is what the caller gave: no scheduler is handed a window it did not ask for.")
     rep.declined = ["termination of run() for all schedules (liveness): not a shape of the code"]
     rep.trusted = ["T1", "T3", "T4 asyncio.Queue FIFO wake-up"]
     common.wrap_exits(ctx, rep, "R03.1",
@@ -23,3 +23,5 @@ def check(ctx, rep):
     common.wrap_typestate(ctx, rep, "R03.5")
     common.window_scope(ctx, rep, "R03.6")
     predicates.shutdown_bounded_by_default(ctx, rep, "R03.7")
+    common.failure_read_when_it_happens(ctx, rep, "R03.8")
+    predicates.config_verbatim(ctx, rep, "R03.9", ('jobs_window',))
